@@ -90,6 +90,10 @@ def _kinds() -> List[dict]:
         I("c"), ast.Compare(ast.Gt(), ast.Attribute(I("c"), "k"), fld("n")))), tags=("lambda", "outer-column"))
     add("path-lambda", BOOL, lambda s, n: ast.CollectionLambda(ast.Attribute(fld("parent"), "children"), ast.Any(), lam(s, n)),
         root="child", tags=("lambda", "path"))
+    add("path-lambda-rev", BOOL, lambda s, n: ast.CollectionLambda(ast.Attribute(fld("owner"), "minions"), ast.Any(), ast.Lambda(
+        I("m"), ast.Compare(ast.Gt(), ast.Attribute(I("m"), "n"), ast.Integer(str(n))))), root="child", tags=("lambda", "path"))
+    add("path2-lambda", BOOL, lambda s, n: ast.CollectionLambda(ast.Attribute(ast.Attribute(fld("parent"), "boss"), "tags"), ast.Any(), None),
+        root="child", tags=("lambda", "path"))
     add("custom-call", UNK, lambda s, n: ast.Call(I("fn", ("ns",)), [fld("name"), ast.String(s)]), tags=("custom",))
     add("named-builtin", BOOL, lambda s, n: ast.Call(I("contains"), [ast.NamedParam(I("field"), fld("name")),
                                                                      ast.NamedParam(I("substr"), ast.String(s))]), tags=("named",))
